@@ -952,8 +952,15 @@ def check(run, replay=None):
                         'round trip within half a resolution step is stated and checked in exact arithmetic on the argument and result bit patterns; the IEEE rounding of v/precision and of code*precision is '
                         'tolerated by the oracle (2^-50 relative) and not part of any theorem',
                         'the Append functions are outside the IR: they have hand-written Gallina models (coq/Model/MsgAppendDefs.v) compared bit-exactly with the C++ on the "A" cases; '
-                        'SetN2kPGN126996Progmem has no harness entry, no model and no theorem']
-    vlib.correspond(run, 'messages', 'h_msgs', 'w64', 'C05', cases, oracle, nontrivial, canon=canon, known=known)
+                        'SetN2kPGN126996Progmem (product information handed over by pointer) is outside the translated subset: it is exercised through a node configured that way, whose '
+                        '126996 answers are decoded against the published layout with the configured strings (the node families of the C15 check, run here too)']
+    if not (bool(replay) and any(l.startswith('# family: prodinfo-progmem-') for l in open(replay))):
+        vlib.correspond(run, 'messages', 'h_msgs', 'w64', 'C05', cases, oracle, nontrivial, canon=canon, known=known)
     info = dict(INFO)
     info['out_of_field_values'] = {k: sorted(v)[:8] for k, v in sorted(INFO['out_of_field_values'].items())}
     run.cov['oracle_checks'] = info
+    # the one 126996 setter outside the translated subset (by pointer) and the NAME built from run-time configuration calls: node families shared with C15 (seed C05-21)
+    preplay = bool(replay) and any(l.startswith('# family: prodinfo-progmem-') for l in open(replay))
+    if preplay or not replay:
+        import p_C15
+        p_C15.node_families(run, replay, cases if preplay else [], preplay)
